@@ -588,7 +588,14 @@ class Unit:
         spec.gen_span = (gfirst, len(gen.lines))
         gen.fns.append(spec)
         gen.clauses += spec.requires + spec.ensures
+        # a failed loop clause is assumed by Verus for the rest of the function, so it compromises every
+        # postcondition of the function: loop clauses carry the properties of all the function's ensures
+        fn_props = set()
+        for c in spec.ensures:
+            fn_props |= set(c.props or [])
         for ls in spec.loops.values():
+            for c in ls.inv + ls.inv_except_break + ls.ensures:
+                c.props = sorted(set(c.props or []) | fn_props)
             gen.clauses += ls.inv + ls.inv_except_break + ls.ensures
         if canary:
             # vacuity canary: a copy of the function (same contract, same body) with the extra clause
